@@ -119,6 +119,16 @@ Definition spec_decode_untyped (bs : list N) : res (env * list ty * list val) :=
   | _ => Err EMal
   end.
 
+(* the same on the table as written (used to check what an encoder emitted against the types it was given) *)
+Definition spec_decode_untyped_raw (bs : list N) : res (env * list ty * list val) :=
+  do h <- dec_header_raw max_type_table_len bs;
+  let '(Ew, tws, body) := h in
+  do vr <- dec_vals (decode_fuel Ew bs) Ew tws body;
+  match snd vr with
+  | [] => Ok (Ew, tws, fst vr)
+  | _ => Err EMal
+  end.
+
 (* decoding at expected types [tes] over environment [Ee] (names disjoint from the table's) *)
 Definition spec_decode (Ee : env) (tes : list ty) (bs : list N) : res (list val) :=
   do d <- spec_decode_untyped bs;
